@@ -27,7 +27,7 @@ fn spec() -> Spec {
             Kind { name: "plans", quick: 220, thorough: 6_000, serial: true },
             Kind { name: "schedules", quick: 30, thorough: 600, serial: true },
         ],
-        rule: "plans: synthetic cell (coarse meshes, tool and base, non-wrapping limits) x stroke generated from joint-space seeds (landing pose, 1..4 stroke poses, parking pose) x obstacle layout (none / grazing the swept tool / blocking the stroke) x start configuration (a landing solution itself / another free posture) x check steps 5 mm..5 cm, cost limits 1..10 degrees, recursion depths 0..8, both interpolation settings; every returned plan is a history checked offline: all waypoints free and within limits, first waypoint == start, flag grammar ONBOARDING* LAND (LIN_INTERP* TRACE)^n LIN_INTERP* PARK, landing / stroke / parking poses reproduced by the reference FK in order, interpolated waypoints on the straight segment (position) and geodesic (rotation) between their anchors with non-decreasing parameter, consecutive Cartesian waypoints within the cost limit, no LIN_INTERP waypoint unless requested; sections the hook reports as closed by RRT are only checked for collisions/limits. schedules: the same deterministic scenario (start = landing solution, no RRT gap closing) in rayon pools 1,2,4,16 x spy delays x repeats must succeed or fail identically. non-trivial = plan returned with >= 1 interpolated Cartesian waypoint (or, without interpolation, >= 2 stroke poses); distinct = hash(waypoints) Workload additions: configured transition coefficients (0.3..4 per joint) in half of the free-form scenarios; layout landing_grazing (obstacle inside the tool's safety distance at the landing pose only); off-origin obstacle meshes.",
+        rule: "plans: synthetic cell (coarse meshes, tool and base, non-wrapping limits) x stroke generated from joint-space seeds (landing pose, 1..4 stroke poses, parking pose) x obstacle layout (none / grazing the swept tool / blocking the stroke) x start configuration (a landing solution itself / another free posture) x check steps 5 mm..5 cm, cost limits 1..10 degrees, recursion depths 0..8, both interpolation settings; every returned plan is a history checked offline: all waypoints free and within limits, first waypoint == start, flag grammar ONBOARDING* LAND (LIN_INTERP* TRACE)^n LIN_INTERP* PARK, landing / stroke / parking poses reproduced by the reference FK in order, interpolated waypoints on the straight segment (position) and geodesic (rotation) between their anchors with non-decreasing parameter, consecutive Cartesian waypoints within the cost limit, no LIN_INTERP waypoint unless requested; sections the hook reports as closed by RRT are only checked for collisions/limits. schedules: the same deterministic scenario (start = landing solution, no RRT gap closing) in rayon pools 1,2,4,16 x spy delays x repeats must succeed or fail identically. non-trivial = plan returned with >= 1 interpolated Cartesian waypoint (or, without interpolation, >= 2 stroke poses); distinct = hash(waypoints) Workload additions: configured transition coefficients (0.3..4 per joint) in half of the free-form scenarios; layout landing_grazing (obstacle inside the tool's safety distance at the landing pose only); off-origin obstacle meshes. Rounds 7-9: start classes almost-the-landing-solution and across-the-seam-with-an-unlimited-joint; sorting weights other than 0; bisection-forcing scenarios; interpolated waypoints may not carry a given-pose flag; given poses must be reproduced in order also after random gap closing.",
         assumptions: vec![
             "reference FK = base * chain * tool of the cell; pose tolerance 1e-5 m / 1e-5 rad; segment tolerance 2e-6 m; cost slack 1e-12",
             "'free of collisions' is the same robot's collides() (C10 covers its agreement with geometry)",
@@ -364,6 +364,30 @@ pub fn check_plan(mon: &mut Mon, s: &Scenario, robot: &KinematicsWithShape, path
     }
     if rrt_closings > 0 {
         mon.count("plans.with_rrt_gap_closing");
+        // (the interpolation clauses do not apply across a random relocation, but the given poses still do: the
+        // LAND, TRACE.. and PARK waypoints must reproduce the landing, stroke and parking poses in their order)
+        let anchors: Vec<Fr> = std::iter::once(s.land).chain(s.steps.iter().cloned()).chain(std::iter::once(s.park)).collect();
+        // (the relocation nodes of a closed gap carry the flag of the pose they lead to, so a flagged waypoint need not be
+        // a given pose; what must hold is that every given pose is reproduced by SOME waypoint carrying its flag, in order)
+        let mut from_k = 0usize;
+        for (ai, a) in anchors.iter().enumerate() {
+            let want_flag = if ai == 0 { PathFlags::LAND } else if ai + 1 == anchors.len() { PathFlags::PARK } else { PathFlags::TRACE };
+            let hit = (from_k..path.len()).find(|k| {
+                let w = &path[*k];
+                w.flags.contains(want_flag) && !w.flags.contains(PathFlags::LIN_INTERP) && {
+                    let g = ref_tcp(&s.cell, &w.joints);
+                    pos_dist(&g, a) <= 1e-5 && rot_angle(&g.r, &a.r) <= 1e-5
+                }
+            });
+            match hit {
+                Some(k) => from_k = k + 1,
+                None => {
+                    ok = false;
+                    mon.violation("poses:given-pose-missing-after-gap-closing", "a plan with random gap closing has no waypoint that carries the flag of a given pose and reproduces it (in the order of the poses)", detail("poses-rrt", json!({"pose_index": ai, "searched_from": from_k})));
+                    break;
+                }
+            }
+        }
         return ok;
     }
     // grammar + poses in order
